@@ -172,6 +172,15 @@ func lexTrace(text string) (lines [][]byte) {
 // lexValidate validates the recorded streams of the texts with TLC and reports every text with a line that
 // JSchemaLex does not explain.
 func lexValidate(c *core.Ctx, texts []string, label string) error {
+	// TLC validates some ten thousand events a second: a bounded, evenly spaced sample of the texts
+	if max := c.Pick(3000, 30000); len(texts) > max {
+		step := float64(len(texts)) / float64(max)
+		var pick []string
+		for i := 0; i < max; i++ {
+			pick = append(pick, texts[int(float64(i)*step)])
+		}
+		texts = pick
+	}
 	fs, res, n, err := lexFindings(texts, label)
 	if res != nil {
 		c.AddTLC("JSchemaLexTrace.cfg", res)
